@@ -252,7 +252,12 @@ def run_history_impl(ops, kw=None):
 
 def run_interleaved(h1, h2, rng):
     """two wrappers alive at the same time, their operations interleaved: each must behave as if it were alone"""
-    r1 = HistoryRunner(**(TIMEOUT_KW if rng.random() < 0.3 else {})); r2 = HistoryRunner(**(TIMEOUT_KW if rng.random() < 0.3 else {}))
+    def kw():
+        d = dict(TIMEOUT_KW) if rng.random() < 0.3 else {}
+        if rng.random() < 0.3:
+            d["optimization_sense"] = rng.choice(["maximize", "minimize"])
+        return d
+    r1 = HistoryRunner(**kw()); r2 = HistoryRunner(**kw())
     i = j = 0; order = []
     while i < len(h1) or j < len(h2):
         first = (j >= len(h2)) or (i < len(h1) and rng.random() < 0.5)
@@ -372,7 +377,13 @@ def run(ctx):
     outs = ctx.model.run([history_request(h) for h in hs], multiline=True)
     for h, out in zip(hs, outs):
         try:
-            impl = run_history_impl(h, TIMEOUT_KW if rng.random() < 0.35 else None)
+            kw = dict(TIMEOUT_KW) if rng.random() < 0.35 else {}
+            # the documented constructor keyword optimization_sense is a default only: the objective that counts is the LAST
+            # set_objective, also when its sense equals the constructor's
+            r = rng.random()
+            if r < 0.45:
+                kw["optimization_sense"] = "maximize" if r < 0.3 else "minimize"
+            impl = run_history_impl(h, kw or None)
         except Exception as e:
             ctx.report("wrapper history raised " + repr(e), {"history": str(h)}, concrete=True); continue
         model = parse_obs(out)
